@@ -17,6 +17,7 @@
 #include "StrList.h"
 
 #include <cerrno>
+#include <climits>
 
 static void httpHeaderPutStrvf(HttpHeader * hdr, Http::HdrType id, const char *fmt, va_list vargs);
 
@@ -84,7 +85,15 @@ int
 httpHeaderParseInt(const char *start, int *value)
 {
     assert(value);
-    *value = atoi(start);
+    errno = 0;
+    const long res = strtol(start, nullptr, 10);
+    if (errno == ERANGE || res > INT_MAX || res < INT_MIN) {
+        // do not let atoi()-style truncation turn a huge number into a small one
+        debugs(66, 2, "failed to parse an out-of-range int header field near '" << start << "'");
+        *value = (res < 0) ? INT_MIN : INT_MAX;
+        return 0;
+    }
+    *value = static_cast<int>(res);
 
     if (!*value && !xisdigit(*start)) {
         debugs(66, 2, "failed to parse an int header field near '" << start << "'");
